@@ -143,9 +143,15 @@ Lemma w_reason_null_ok :
   wf_schema w_reason_null = true /\ generate_v0 w_reason_null = None
   /\ lossy_clauses w_reason_null = [] /\ exact_of_generate_b w_reason_null = true /\ roundtrip_b w_reason_null = true.
 Proof. vm. Qed.
+(* repaired (ast.Document.PrintValue): historically the printed text of a block string ending in a quote read back
+   without that quote; today a line terminator separates the content from the closing delimiter and the schema is
+   inside the claims *)
+Definition v_block_trailing_quote : value := Eval vm_compute in VStr (blit "say ""hi""") true.
 Lemma w_block_trailing_quote_ok :
-  wf_schema w_block_trailing_quote = true /\ lossy_clauses w_block_trailing_quote = [#"block-string-reprint"]
-  /\ exact_of_generate_b w_block_trailing_quote = false /\ roundtrip_b w_block_trailing_quote = false.
+  parse_text (print_string_v0 (blit "say ""hi""") true) = POk (VStr (blit "say ""hi") true) [TStr [] false]
+  /\ value_ok v_block_trailing_quote = true /\ parse_text (print_value v_block_trailing_quote) = POk v_block_trailing_quote []
+  /\ wf_schema w_block_trailing_quote = true /\ lossy_clauses w_block_trailing_quote = []
+  /\ exact_of_generate_b w_block_trailing_quote = true /\ roundtrip_b w_block_trailing_quote = true.
 Proof. vm. Qed.
 Lemma w_name_collision_ok :
   wf_schema w_name_collision = true
